@@ -9,6 +9,13 @@
 // leads to the SINK. The oracle judges every client-visible reply (attack,
 // repeated attack question, victim questions now and after virtual time
 // advances) and the sink's packet log. See DESIGN.md §4 C07.
+//
+// Unchanged tree: FINDINGS.md #1/#2 (out-of-zone answer-section records are
+// relayed on the cache-miss reply; foreign DNAMEs are also cached) — five narrow
+// `known` signatures evil-in-answer/answer-*/attack-reply and
+// evil-in-answer/answer-foreign-dname/later-reply; every other signature fails.
+// Mutants: /verif/mutants/C07/README.md. Debugging: C07_DEBUG=1|2, C07_CASE=<i>,
+// C07_BATCH=lo:hi:step, C07_ROUNDS, C07_WORKERS.
 package main
 
 import (
@@ -552,7 +559,7 @@ func main() {
 		return
 	}
 
-	rounds := r.N(6, 110)
+	rounds := r.N(6, 180)
 	if v, err := strconv.Atoi(os.Getenv("C07_ROUNDS")); err == nil && v > 0 {
 		rounds = v
 	}
